@@ -466,3 +466,90 @@ func sideOfValue(p *Prog, v ssa.Value) string {
 	}
 	return "other"
 }
+
+// ruleGoroutineAborts: R20.8.  errlog.Abort ends the run by a panic that drc / do-approve recover
+// in errlog.HandleAbort on the main goroutine.  The same abort on another goroutine is not
+// recovered by anybody: the process dies with a stack trace and exit status 2.
+func ruleGoroutineAborts(p *Prog, r *Report) {
+	r.rule("R20.8", "An abort is raised only where it is recovered: no `go` statement in production code starts a function from which errlog.Abort or a panic is reachable (VTA call graph) unless that function itself defers errlog.HandleAbort / a recover. (Parsing a file in a background goroutine turns every `ERROR>>>` diagnostic of the parser into a Go crash.) The tree has no goroutine today.")
+	cg := p.CG()
+	n := 0
+	for _, fn := range allModFuncs(p) {
+		for _, b := range fn.Blocks {
+			for _, in := range b.Instrs {
+				g, ok := in.(*ssa.Go)
+				if !ok {
+					continue
+				}
+				n++
+				var roots []*ssa.Function
+				cs := &callSite{In: g, Fn: fn, Static: g.Common().StaticCallee()}
+				roots = append(roots, calleesOfSite(p, cs)...)
+				if mc, ok := g.Common().Value.(*ssa.MakeClosure); ok {
+					if f, ok := mc.Fn.(*ssa.Function); ok {
+						roots = append(roots, f)
+					}
+				}
+				bad := ""
+				for _, root := range roots {
+					// recovered in the goroutine itself?
+					recovered := false
+					for _, cs2 := range callsOf(root) {
+						if _, isDefer := cs2.In.(*ssa.Defer); isDefer {
+							n2 := cs2.calleeName()
+							if n2 == "errlog.HandleAbort" || strings.Contains(n2, "recover") {
+								recovered = true
+							}
+							for _, c2 := range calleesOfSite(p, cs2) {
+								for _, cs3 := range callsOf(c2) {
+									if bi, ok := cs3.In.Common().Value.(*ssa.Builtin); ok && bi.Name() == "recover" {
+										recovered = true
+									}
+								}
+							}
+						}
+					}
+					if recovered {
+						continue
+					}
+					seen := map[*ssa.Function]bool{}
+					var walk func(f *ssa.Function) string
+					walk = func(f *ssa.Function) string {
+						if seen[f] {
+							return ""
+						}
+						seen[f] = true
+						for _, bb := range f.Blocks {
+							for _, x := range bb.Instrs {
+								if _, isP := x.(*ssa.Panic); isP {
+									return "panic in " + shortName(f)
+								}
+							}
+						}
+						if nd := cg.Nodes[f]; nd != nil {
+							for _, e := range nd.Out {
+								c := e.Callee.Func
+								if shortName(c) == "errlog.Abort" {
+									return "errlog.Abort called from " + shortName(f)
+								}
+								if isModFunc(c) {
+									if w := walk(c); w != "" {
+										return w
+									}
+								}
+							}
+						}
+						return ""
+					}
+					if w := walk(root); w != "" {
+						bad = w
+					}
+				}
+				r.add("R20.8", "goroutine-abort|"+fnDisplay(fn), p.ipos(g), "the goroutine started in "+fnDisplay(fn)+" cannot abort, or recovers its aborts", bad == "",
+					"an abort on this goroutine is not recovered by HandleAbort: the program crashes with a stack trace ("+bad+")")
+			}
+		}
+	}
+	r.note("R20.8: %d go statements examined", n)
+	r.ok("R20.8", "goroutines-examined", "", fmt.Sprintf("%d `go` statements in production code", n))
+}
